@@ -31,8 +31,10 @@ HasChannel(strategy) == strategy \in {"ignore", "finish", "poll_n"}
 (* polled = the inner stream was polled (so an "item"/"end" was consumed,    *)
 (* or its waker registered), recv = the signal was taken from the channel.  *)
 (***************************************************************************)
+(* act = fn_interrupt_activate is called during this poll (item_interrupt_poll returned a signal);         *)
+(* pit = fn_interrupt_poll_item is called during this poll (an Interrupted item is returned)               *)
 PollIS(strategy, k, is, inner, chan) ==
-  IF is.ntf THEN [is |-> is, out |-> "end", polled |-> FALSE, recv |-> FALSE]
+  IF is.ntf THEN [is |-> is, out |-> "end", polled |-> FALSE, recv |-> FALSE, act |-> FALSE, pit |-> FALSE]
   ELSE
     LET doCheck   == ~is.sl /\ ~is.cnt                       \* interrupt_check
         chn       == HasChannel(strategy)
@@ -51,17 +53,18 @@ PollIS(strategy, k, is, inner, chan) ==
     IN
     IF is.hp THEN                                             \* poll_future_item
       IF inner = "pending"
-      THEN [is |-> s1, out |-> "pending", polled |-> TRUE, recv |-> firstRecv]
+      THEN [is |-> s1, out |-> "pending", polled |-> TRUE, recv |-> firstRecv, act |-> sigOut, pit |-> FALSE]
       ELSE IF sl2
            THEN [is |-> ready([s1 EXCEPT !.ntf = TRUE]),
                  out |-> IF inner = "item" THEN "int_item" ELSE "int_none",
-                 polled |-> TRUE, recv |-> firstRecv]
-           ELSE [is |-> ready(s1), out |-> inner, polled |-> TRUE, recv |-> firstRecv]
+                 polled |-> TRUE, recv |-> firstRecv, act |-> sigOut, pit |-> TRUE]
+           ELSE [is |-> ready(s1), out |-> inner, polled |-> TRUE, recv |-> firstRecv, act |-> sigOut, pit |-> FALSE]
     ELSE
       IF sl2
-      THEN [is |-> ready([s1 EXCEPT !.ntf = TRUE]), out |-> "int_none", polled |-> FALSE, recv |-> firstRecv]
+      THEN [is |-> ready([s1 EXCEPT !.ntf = TRUE]), out |-> "int_none", polled |-> FALSE, recv |-> firstRecv,
+            act |-> sigOut, pit |-> TRUE]
       ELSE IF inner = "pending"
-           THEN [is |-> [s1 EXCEPT !.hp = TRUE], out |-> "pending", polled |-> TRUE, recv |-> firstRecv]
-           ELSE [is |-> ready(s1), out |-> inner, polled |-> TRUE, recv |-> firstRecv]
+           THEN [is |-> [s1 EXCEPT !.hp = TRUE], out |-> "pending", polled |-> TRUE, recv |-> firstRecv, act |-> sigOut, pit |-> FALSE]
+           ELSE [is |-> ready(s1), out |-> inner, polled |-> TRUE, recv |-> firstRecv, act |-> sigOut, pit |-> FALSE]
 
 =============================================================================
